@@ -658,10 +658,20 @@ impl TxPool {
             all_conflicted.extend(entries);
         }
 
+        // The members of the dep groups are cell deps as well: they were resolved with the
+        // outputs of the conflicts visible (`PoolCell { rbf: true }`), and the group cell itself
+        // may be on chain, so only the resolved deps tell that a member comes from a conflict.
         let tx_cells_deps: Vec<OutPoint> = entry
             .transaction()
             .cell_deps_iter()
             .map(|c| c.out_point())
+            .chain(
+                entry
+                    .rtx
+                    .resolved_cell_deps
+                    .iter()
+                    .map(|cell_meta| cell_meta.out_point.clone()),
+            )
             .collect();
         for entry in all_conflicted.iter() {
             let hash = entry.inner.transaction().hash();
